@@ -424,7 +424,7 @@ def validate_model():
 def selftest():
     validate_model()
     t = [[2, 0], [1, 3]]
-    assert M.pairwise(t, 1.0)[0] == Fr(4, 7) and M.rand_index(t) == Fr(4 + 6, 15)
+    assert M.pairwise(t, 1.0)[:2] == (Fr(2, 3), Fr(4, 7)) and M.rand_index(t) == Fr(4 + 6, 15)
     assert M.ari([[1, 0], [0, 1]]) == 1 and M.nmi([[3, 2]]) == UNDEF and M.pairwise([[1], [1]])[1] == UNDEF
 
 
